@@ -11,6 +11,10 @@ Import ListNotations.
 Require Import V.model.Schnorr V.proofs.ZnInv_proofs.
 Local Open Scope Z_scope.
 
+Arguments be_sig {M} _.
+Arguments be_pk {M} _.
+Arguments be_m {M} _.
+
 Section SchnorrProofs.
   Variable n : Z.
   Variable yodd : Z -> bool.
@@ -349,6 +353,223 @@ Section SchnorrProofs.
     apply bip_accept_iff in H. destruct H as (_ & _ & _ & _ & H). cbv zeta in H.
     destruct H as (_ & Hy' & _). congruence.
   Qed.
+  (* ---- BIP-340 batch verification -------------------------------------------------------------------- *)
+  Notation batch_left := (batch_left n M).
+  Notation batch_right := (batch_right n yodd M chal).
+  Notation batch_term := (batch_term n yodd M chal).
+  Notation bip_batch_verify := (bip_batch_verify n yodd M chal).
+
+  Definition entry_ok (e : bentry M) : Prop :=
+    0 < g_k (s_R (be_sig e)) < n /\ 0 < g_k (be_pk e) < n.
+
+  (* what a single accepted signature satisfies, in the form the batch equation uses *)
+  Lemma single_equation : forall sg pk m,
+    0 < g_k (s_R sg) < n -> 0 < g_k pk < n ->
+    bip_verify sg pk m = true ->
+    s_s sg == even_y (g_k (s_R sg)) + even_y (g_k pk) * chal (xo (g_k (s_R sg))) (xo (g_k pk)) m.
+  Proof.
+    intros sg pk m HR Hpk H. apply bip_accept_iff in H. destruct H as (_ & _ & _ & _ & H). cbv zeta in H.
+    destruct (even_y_even (g_k pk) Hpk) as (_ & _ & HPx). rewrite HPx in H.
+    set (P := even_y (g_k pk)) in *. set (e := chal (xo (g_k (s_R sg))) (xo (g_k pk)) m) in *.
+    destruct H as (H0 & Hy & Hx).
+    assert (Hr : 0 < bip_R' (s_s sg) P e < n).
+    { pose proof (smod_range (s_s sg + Schnorr.sneg n (Schnorr.smul n P e))). unfold bip_R', Schnorr.sadd in *. lia. }
+    assert (HRe : bip_R' (s_s sg) P e = even_y (g_k (s_R sg))).
+    { rewrite (even_y_small _ HR). apply xo_eq_iff in Hx; [|exact Hr|exact HR].
+      destruct Hx as [Hx|Hx].
+      - rewrite Hx in Hy. rewrite Hy. exact Hx.
+      - rewrite Hx in Hy. rewrite (yodd_neg _ HR) in Hy. destruct (yodd (g_k (s_R sg))); [exact Hx|discriminate]. }
+    rewrite <- HRe.
+    assert (A : bip_R' (s_s sg) P e == s_s sg - P * e).
+    { unfold bip_R', Schnorr.sadd, Schnorr.sneg, Schnorr.smul. rewrite !(mod_eqm n n_prime). apply eqm_ring. ring. }
+    rewrite A. apply eqm_ring. ring.
+  Qed.
+
+  Lemma batch_left_range : forall coefs es, 0 <= batch_left coefs es < n.
+  Proof.
+    intros coefs es. destruct coefs as [|a cs]; [cbn; lia|]. destruct es as [|e r]; [cbn; lia|].
+    cbn [Schnorr.batch_left]. unfold Schnorr.sadd. apply smod_range.
+  Qed.
+
+  Lemma batch_right_range : forall coefs es, 0 <= batch_right coefs es < n.
+  Proof.
+    intros coefs es. destruct coefs as [|a cs]; [cbn; lia|]. destruct es as [|e r]; [cbn; lia|].
+    cbn [Schnorr.batch_right]. unfold Schnorr.sadd. apply smod_range.
+  Qed.
+
+  Lemma batch_term_eqm : forall a e,
+    batch_term a e == a * (even_y (g_k (s_R (be_sig e))) +
+                           even_y (g_k (be_pk e)) * chal (xo (g_k (s_R (be_sig e)))) (xo (g_k (be_pk e))) (be_m e)).
+  Proof.
+    intros a e. unfold Schnorr.batch_term. cbv zeta. unfold Schnorr.sadd, Schnorr.smul.
+    rewrite !(mod_eqm n n_prime). apply eqm_ring. ring.
+  Qed.
+
+  (* completeness: if every signature verifies on its own, the batch equation holds for every choice of coefficients *)
+  Lemma batch_equation_complete : forall es coefs,
+    length coefs = length es ->
+    (forall e, In e es -> entry_ok e /\ bip_verify (be_sig e) (be_pk e) (be_m e) = true) ->
+    batch_left coefs es = batch_right coefs es.
+  Proof.
+    induction es as [|e r IH]; intros coefs Hl Hall; destruct coefs as [|a cs]; try discriminate; [reflexivity|].
+    cbn [Schnorr.batch_left Schnorr.batch_right].
+    rewrite (IH cs) by (try (cbn in Hl; lia); intros e' He'; apply Hall; right; exact He').
+    destruct (Hall e (or_introl eq_refl)) as [[HR Hpk] Hv].
+    unfold Schnorr.sadd. change (Schnorr.smul n a (s_s (be_sig e)) + batch_right cs r == batch_term a e + batch_right cs r).
+    rewrite batch_term_eqm. unfold Schnorr.smul. rewrite (mod_eqm n n_prime).
+    rewrite (single_equation _ _ _ HR Hpk Hv). reflexivity.
+  Qed.
+
+  Theorem bip_batch_complete : forall es coefs,
+    es <> [] -> length coefs = length es ->
+    (forall e, In e es -> entry_ok e /\ bip_verify (be_sig e) (be_pk e) (be_m e) = true) ->
+    bip_batch_verify coefs es = true.
+  Proof.
+    intros es coefs Hne Hl Hall. unfold Schnorr.bip_batch_verify.
+    destruct es as [|e0 r0]; [contradiction|]. set (es := e0 :: r0) in *.
+    rewrite Hl, Nat.eqb_refl. cbn [negb].
+    assert (Hex : existsb (fun e => g_k (be_pk e) mod n =? 0) es = false).
+    { destruct (existsb (fun e => g_k (be_pk e) mod n =? 0) es) eqn:E; [|reflexivity].
+      apply existsb_exists in E. destruct E as (e & Hin & He). destruct (Hall e Hin) as [[_ Hpk] _].
+      rewrite Z.mod_small in He by lia. lia. }
+    rewrite Hex. apply Z.eqb_eq. apply batch_equation_complete; assumption.
+  Qed.
+
+  (* a batch of one signature is exactly single verification (BatchVerify itself does not look at s = 0) *)
+  Theorem bip_batch_one_equiv_single : forall sg pk m,
+    0 < g_k (s_R sg) < n -> 0 < g_k pk < n -> ~ s_s sg == 0 -> g_tf pk = true ->
+    bip_batch_verify [1] [mk_bentry M sg pk m] = bip_verify sg pk m.
+  Proof.
+    intros sg pk m HR Hpk Hs Htf.
+    destruct (bip_verify sg pk m) eqn:Hv.
+    - apply bip_batch_complete; [discriminate|reflexivity|].
+      intros e [He|[]]. subst e. cbn [be_sig be_pk be_m]. split; [split; assumption|exact Hv].
+    - destruct (bip_batch_verify [1] [mk_bentry M sg pk m]) eqn:Hb; [|reflexivity].
+      exfalso. unfold Schnorr.bip_batch_verify in Hb. cbn [length Nat.eqb negb existsb be_pk orb] in Hb.
+      assert (Hz : (g_k pk mod n =? 0) = false) by (rewrite Z.mod_small; lia). rewrite Hz in Hb.
+      apply Z.eqb_eq in Hb. cbn [Schnorr.batch_left Schnorr.batch_right be_sig] in Hb.
+      assert (He : s_s sg == even_y (g_k (s_R sg)) + even_y (g_k pk) * chal (xo (g_k (s_R sg))) (xo (g_k pk)) m).
+      { transitivity (Schnorr.sadd n (Schnorr.smul n 1 (s_s sg)) 0).
+        - unfold Schnorr.sadd, Schnorr.smul. rewrite !(mod_eqm n n_prime). apply eqm_ring. ring.
+        - rewrite Hb. unfold Schnorr.sadd at 1. rewrite (mod_eqm n n_prime).
+          rewrite (batch_term_eqm 1 (mk_bentry M sg pk m)). cbn [be_sig be_pk be_m]. apply eqm_ring. ring. }
+      assert (Hacc : bip_verify sg pk m = true).
+      { apply bip_accept_iff. destruct (even_y_even (g_k pk) Hpk) as (_ & HPr & HPx).
+        destruct (even_y_even (g_k (s_R sg)) HR) as (HRy & HRr & HRx).
+        assert (HR' : bip_R' (s_s sg) (even_y (g_k pk)) (chal (xo (g_k (s_R sg))) (xo (g_k pk)) m) = even_y (g_k (s_R sg))).
+        { apply (eqm_small n); [apply smod_range|lia|].
+          unfold bip_R', Schnorr.sadd, Schnorr.sneg, Schnorr.smul. rewrite !(mod_eqm n n_prime).
+          rewrite He. apply eqm_ring. ring. }
+        cbv zeta. rewrite HPx, HR'.
+        repeat split; try assumption; try lia.
+        - intro H0. apply (proj1 (eqm_0_mod n n_prime _)) in H0. rewrite Z.mod_small in H0; lia.
+        - intro H0. apply (proj1 (eqm_0_mod n n_prime _)) in H0. rewrite Z.mod_small in H0; lia. }
+      congruence.
+  Qed.
+
+  (* negating every response: both batches can pass only if the left-hand side vanishes *)
+  Definition neg_s (e : bentry M) : bentry M :=
+    mk_bentry M (mk_ssig (s_R (be_sig e)) (sneg (s_s (be_sig e)))) (be_pk e) (be_m e).
+
+  Lemma batch_right_neg_s : forall es coefs, batch_right coefs (map neg_s es) = batch_right coefs es.
+  Proof.
+    induction es as [|e r IH]; intros coefs; destruct coefs as [|a cs]; try reflexivity.
+    cbn [map Schnorr.batch_right]. rewrite IH. reflexivity.
+  Qed.
+
+  Lemma batch_left_neg_s : forall es coefs, batch_left coefs (map neg_s es) == - batch_left coefs es.
+  Proof.
+    induction es as [|e r IH]; intros coefs; destruct coefs as [|a cs]; try (cbn; reflexivity).
+    cbn [map Schnorr.batch_left neg_s be_sig s_s]. unfold Schnorr.sadd. rewrite !(mod_eqm n n_prime).
+    rewrite IH. unfold Schnorr.smul, Schnorr.sneg. rewrite !(mod_eqm n n_prime). apply eqm_ring. ring.
+  Qed.
+
+  Theorem bip_batch_all_s_negated : forall es coefs,
+    2 < n ->
+    bip_batch_verify coefs es = true -> bip_batch_verify coefs (map neg_s es) = true ->
+    batch_left coefs es = 0.
+  Proof.
+    intros es coefs Hn2 H H'. unfold Schnorr.bip_batch_verify in H, H'.
+    destruct es as [|e0 r0]; [discriminate|]. set (es := e0 :: r0) in *.
+    change (map neg_s es) with (neg_s e0 :: map neg_s r0) in H'.
+    destruct (negb (Nat.eqb (length coefs) (length es))); [discriminate|].
+    destruct (negb (Nat.eqb (length coefs) (length (neg_s e0 :: map neg_s r0)))); [discriminate|].
+    destruct (existsb _ es); [discriminate|]. destruct (existsb _ (neg_s e0 :: map neg_s r0)); [discriminate|].
+    apply Z.eqb_eq in H, H'. change (neg_s e0 :: map neg_s r0) with (map neg_s es) in H'.
+    rewrite batch_right_neg_s in H'. rewrite <- H in H'.
+    pose proof (batch_left_neg_s es coefs) as Hneg. rewrite H' in Hneg.
+    assert (H2 : 2 * batch_left coefs es == 0).
+    { transitivity (batch_left coefs es + batch_left coefs es); [apply eqm_ring; ring|].
+      rewrite Hneg at 1. apply eqm_ring. ring. }
+    apply (eqm_mul_0 n n_prime) in H2. destruct H2 as [H2|H2].
+    - apply (proj1 (eqm_0_mod n n_prime _)) in H2. rewrite Z.mod_small in H2; lia.
+    - apply (eqm_small n); [apply batch_left_range|lia|exact H2].
+  Qed.
+
+  Theorem bip_batch_one_s_negated_rejected : forall e,
+    2 < n -> ~ s_s (be_sig e) == 0 ->
+    bip_batch_verify [1] [e] = true -> bip_batch_verify [1] [neg_s e] = false.
+  Proof.
+    intros e Hn2 Hs H. destruct (bip_batch_verify [1] [neg_s e]) eqn:H'; [|reflexivity].
+    pose proof (bip_batch_all_s_negated [e] [1] Hn2 H H') as H0. exfalso. apply Hs.
+    cbn [Schnorr.batch_left] in H0. unfold Schnorr.sadd, Schnorr.smul in H0.
+    transitivity ((1 * s_s (be_sig e)) mod n + 0); [rewrite (mod_eqm n n_prime); apply eqm_ring; ring|].
+    apply (eqm_0_mod n n_prime). exact H0.
+  Qed.
+
+  (* one response changed: rejected whenever its coefficient is non-zero (the verifier draws non-zero coefficients) *)
+  Definition set_s (e : bentry M) (s' : Z) : bentry M :=
+    mk_bentry M (mk_ssig (s_R (be_sig e)) s') (be_pk e) (be_m e).
+
+  Lemma batch_left_app : forall l1 c1 l2 c2,
+    length c1 = length l1 ->
+    batch_left (c1 ++ c2) (l1 ++ l2) == batch_left c1 l1 + batch_left c2 l2.
+  Proof.
+    induction l1 as [|e r IH]; intros c1 l2 c2 Hl; destruct c1 as [|a cs]; try discriminate.
+    - cbn [app Schnorr.batch_left]. apply eqm_ring. ring.
+    - cbn [app Schnorr.batch_left]. unfold Schnorr.sadd. rewrite !(mod_eqm n n_prime).
+      rewrite IH by (cbn in Hl; lia). apply eqm_ring. ring.
+  Qed.
+
+  Lemma batch_right_app : forall l1 c1 l2 c2,
+    length c1 = length l1 ->
+    batch_right (c1 ++ c2) (l1 ++ l2) == batch_right c1 l1 + batch_right c2 l2.
+  Proof.
+    induction l1 as [|e r IH]; intros c1 l2 c2 Hl; destruct c1 as [|a cs]; try discriminate.
+    - cbn [app Schnorr.batch_right]. apply eqm_ring. ring.
+    - cbn [app Schnorr.batch_right]. unfold Schnorr.sadd. rewrite !(mod_eqm n n_prime).
+      rewrite IH by (cbn in Hl; lia). apply eqm_ring. ring.
+  Qed.
+
+  Theorem bip_batch_one_s_changed : forall l1 c1 e a l2 c2 s',
+    length c1 = length l1 -> ~ a == 0 ->
+    bip_batch_verify (c1 ++ a :: c2) (l1 ++ e :: l2) = true ->
+    bip_batch_verify (c1 ++ a :: c2) (l1 ++ set_s e s' :: l2) = true ->
+    s_s (be_sig e) == s'.
+  Proof.
+    intros l1 c1 e a l2 c2 s' Hl Ha H H'. unfold Schnorr.bip_batch_verify in H, H'.
+    destruct (l1 ++ e :: l2) as [|x xs] eqn:E1; [discriminate|].
+    destruct (l1 ++ set_s e s' :: l2) as [|y ys] eqn:E2; [discriminate|].
+    destruct (negb (Nat.eqb (length (c1 ++ a :: c2)) (length (x :: xs)))); [discriminate|].
+    destruct (negb (Nat.eqb (length (c1 ++ a :: c2)) (length (y :: ys)))); [discriminate|].
+    destruct (existsb _ (x :: xs)); [discriminate|]. destruct (existsb _ (y :: ys)); [discriminate|].
+    apply Z.eqb_eq in H, H'. rewrite <- E1 in H. rewrite <- E2 in H'.
+    assert (A : batch_left (c1 ++ a :: c2) (l1 ++ e :: l2) == batch_left (c1 ++ a :: c2) (l1 ++ set_s e s' :: l2)).
+    { rewrite H, H'. rewrite !batch_right_app by exact Hl. cbn [Schnorr.batch_right]. reflexivity. }
+    rewrite !batch_left_app in A by exact Hl. cbn [Schnorr.batch_left set_s be_sig s_s] in A.
+    unfold Schnorr.sadd, Schnorr.smul in A. rewrite !(mod_eqm n n_prime) in A.
+    apply (eqm_mul_cancel_l n n_prime a); [exact Ha|].
+    transitivity ((batch_left c1 l1 + (a * s_s (be_sig e) + batch_left c2 l2)) - batch_left c1 l1 - batch_left c2 l2);
+      [apply eqm_ring; ring|].
+    rewrite A. apply eqm_ring. ring.
+  Qed.
+
+  (* VerifierTrait.BatchVerify (generic variant, Mina): accepts iff every entry verifies *)
+  Theorem gen_batch_iff : forall neg_resp encR encP es,
+    gen_batch_verify n M chal neg_resp encR encP es = true <->
+    forall e, In e es -> gen_verify neg_resp encR encP (be_sig e) (be_pk e) (be_m e) = true.
+  Proof. intros. unfold Schnorr.gen_batch_verify. apply forallb_forall. Qed.
+
   (* ---- wire forms: only the canonical representative of every component is accepted ------------------ *)
   Theorem bip_wire_accept_iff : forall p lift_even px rx s m,
     bip_verify_wire n yodd M chal p lift_even px rx s m = true <->
